@@ -149,6 +149,15 @@ def structured_families() -> tuple[dict, dict]:
         "TwoModels": ({"type": "object", "properties": {"u": {"oneOf": [ref("M"), ref("N")]}}}, [{"u": {"v": 1}}, {"u": {"w": 2}}, {"u": {"v": 1, "w": 2}}]),
         "NestedUnion": ({"type": "object", "properties": {"u": {"oneOf": [{"oneOf": [ref("M"), {"type": "null"}]}, ref("Strict")]}}},
                         [{"u": {"v": 1, "when": "x", "note": "n"}}, {"u": {"id": 7}}, {"u": None}]),
+        # "reference by id or embed": object members sharing a property name that an earlier member types uuid / date / enum and a later one differently
+        "OwnerLink": ({"type": "object", "required": ["owner"], "properties": {"owner": {"type": "string", "format": "uuid"}}}, [{"owner": "12345678-1234-5678-1234-567812345678"}]),
+        "OwnerEmbedded": ({"type": "object", "required": ["owner"], "properties": {"owner": ref("M")}}, [{"owner": {"v": 1}}]),
+        "OwnerLegacy": ({"type": "object", "required": ["owner"], "properties": {"owner": I}}, [{"owner": 7}]),
+        "OwnerDated": ({"type": "object", "required": ["owner"], "properties": {"owner": {"type": "string", "format": "date-time"}}}, [{"owner": "2020-01-02T03:04:05+00:00"}]),
+        "IdOrEmbed": ({"type": "object", "properties": {"u": {"oneOf": [ref("OwnerLink"), ref("OwnerDated"), ref("OwnerEmbedded"), ref("OwnerLegacy")]},
+                                                        "l": {"type": "array", "items": {"anyOf": [ref("OwnerLink"), ref("OwnerLegacy"), ref("OwnerEmbedded")]}}}},
+                      [{"u": {"owner": "12345678-1234-5678-1234-567812345678"}}, {"u": {"owner": {"v": 1}}}, {"u": {"owner": 7}}, {"u": {"owner": "2020-01-02T03:04:05+00:00"}},
+                       {"l": [{"owner": 7}, {"owner": {"v": 2}}, {"owner": "12345678-1234-5678-1234-567812345678"}, {"owner": True}]}, {"u": {"owner": [1]}}]),
         "Strict": ({"type": "object", "required": ["id"], "properties": {"id": I}, "additionalProperties": False}, [{"id": 1}]),
         "NullableModel": ({"type": "object", "properties": {"m": {"oneOf": [ref("M"), {"type": "null"}]}, "l": {"type": ["array", "null"], "items": ref("M")}}},
                           [{"m": None, "l": None}, {"m": {"v": 1}, "l": [{"v": 2}]}, {}]),
